@@ -27,7 +27,7 @@ CLAUSES = {
             "ObsOrderFree", "Returns"},
     "C07": {"ObsCands", "Returns"},
     "C08": {"ObsBackend", "ObsBackendsAgree", "ObsPartition", "ObsCover", "NoCheaper", "ObsModelOpt", "Returns"},
-    "C11": {"ObsCover", "ObsSlots", "ObsNoForeign", "ObsHasRealUnit", "NoCheaper", "ObsModelOpt", "ObsSoftLE", "Returns"},
+    "C11": {"ObsCover", "ObsSlots", "ObsNoForeign", "ObsHasRealUnit", "NoCheaper", "ObsModelOpt", "ObsSoftLE", "ObsTotal", "Returns"},
 }
 
 MC_ALIGN_CFG = """SPECIFICATION Spec
@@ -224,6 +224,10 @@ def random_dissim(pa, rng, c, allow_cat=True):
         kinds += ["comb_lev", "comb_ord", "comb_pre", "pre", "lev", "comb_num"]
     kind = rng.choice(kinds)
     cats = c.categories
+    if labelled and rng.random() < 0.5:
+        # the dissimilarity is declared on a strict SUPERSET of the labels in use (unused labels before, between and after)
+        from sortedcontainers import SortedSet
+        cats = SortedSet(list(cats) + ["0", "5", "m", "zzzz"])
     if kind == "pos":
         return kind, pa.PositionalSporadicDissimilarity(delta_empty=de)
     if kind == "abs":
@@ -237,9 +241,9 @@ def random_dissim(pa, rng, c, allow_cat=True):
         rng.shuffle(labs)
         cd = pa.OrdinalCategoricalDissimilarity(labs, delta_empty=de)
     elif kind == "comb_num":
-        if not all(x.isdigit() for x in cats):
+        if not all(x.isdigit() for x in c.categories):
             return "comb_abs", pa.CombinedCategoricalDissimilarity(alpha=alpha, beta=beta, delta_empty=de)
-        cd = pa.NumericalCategoricalDissimilarity(list(cats), delta_empty=de)
+        cd = pa.NumericalCategoricalDissimilarity([x for x in cats if x.replace(".", "").isdigit()], delta_empty=de)
     else:
         k = len(cats)
         m = np.zeros((k, k), dtype=np.float32)
@@ -283,12 +287,29 @@ def l3_records(pa, rng, count, backends, modes, violations, shapes=SHAPES_SEARCH
                 tries += 0
                 continue
             raise MachineryError(f"cannot observe the pairwise table: {ex0!r}")
+        meta = {"family": "R", "dissim": kind, "delta_empty": float(d.delta_empty), "alpha": getattr(d, "alpha", None),
+                "beta": getattr(d, "beta", None), "declared_categories": None if d.categories is None else list(d.categories),
+                "continuum": continuum_summary(c)}
         recs += run_modes(pa, c, d, D, de_int, R_SCALE, tol=8, band=16, backends=backends, modes=modes,
                           search=search and c.num_units <= 12, cands=cands, recompute=recompute, rng=rng,
-                          violations=violations,
-                          meta={"family": "R", "dissim": kind, "delta_empty": float(d.delta_empty),
-                                "alpha": getattr(d, "alpha", None), "beta": getattr(d, "beta", None),
-                                "continuum": continuum_summary(c)})
+                          violations=violations, meta=meta)
+        if rng.random() < 0.3 and c.num_units >= 2:
+            # the SAME continuum object edited in place without changing its unit count (a unit moved and relabelled), then
+            # everything recomputed with the SAME dissimilarity object: nothing may be remembered from before the edit
+            from pyannote.core import Segment
+            a, u = rng.choice([(a, u) for a, u in c])
+            labs_in_use = [x.annotation for _, x in c]
+            new = (Segment(u.segment.start + rng.choice([1, 2.5, 7]), u.segment.end + rng.choice([7, 9.5])), rng.choice(labs_in_use))
+            if not any(x.segment == new[0] and x.annotation == new[1] for x in c[a]):
+                c.remove(a, u)
+                c.add(a, new[0], new[1])
+                try:
+                    D2, de2 = ar.observe_table(pa, c, d, R_SCALE)
+                except Exception:
+                    continue
+                recs += run_modes(pa, c, d, D2, de2, R_SCALE, tol=8, band=16, backends=backends[:1], modes=modes,
+                                  search=search and c.num_units <= 12, cands=cands, recompute=recompute, rng=rng, violations=violations,
+                                  meta=dict(meta, edited_in_place=True, continuum=continuum_summary(c)))
     return recs
 
 
@@ -415,6 +436,9 @@ def run_property(pid, tier, rep):
                            search=False, shapes=[(3, 7), (4, 5), (2, 15), (5, 4), (3, 9)], unlabelled=0.0)
         recs += l3_records(pa, rng, 360 if quick else 5000, both, ["partition"], violations, cands=False, recompute=False,
                            search=False, shapes=[(3, 7), (3, 8), (4, 5), (3, 6)], unlabelled=0.0, dense=True)
+        # a few large ones (5x8 .. 5x10, tens of thousands of candidates): tiny objective coefficients, long branch-and-bound
+        recs += l3_records(pa, rng, 10 if quick else 120, both, ["partition"], violations, cands=False, recompute=False,
+                           search=False, shapes=[(5, 8), (5, 10), (4, 12), (5, 9)], unlabelled=0.0, dense=True)
         recs = add_other_backend_cost(recs)
     elif pid == "C11":
         l1_align_mutants(rep)
@@ -422,6 +446,7 @@ def run_property(pid, tier, rep):
         recs = l2_records(pa, insts, both, ["partition", "soft"], rng, violations, limit=200 if quick else None)
         recs += l3_records(pa, rng, 200 if quick else 3000, both, ["partition", "soft"], violations, cands=False, recompute=False)
         recs = add_soft_le(recs)
+        soft_permutation_pairs(rep, pa, rng, 40 if quick else 600)
     else:
         raise MachineryError(pid)
     if pid != "C11":
@@ -439,11 +464,39 @@ def run_property(pid, tier, rep):
             raise MachineryError("one of the two back-ends was never exercised")
 
 
+def soft_permutation_pairs(rep, pa, rng, count):
+    """C11 on medium continua (no exact oracle): the minimum over covers does not depend on how the annotators are named,
+    so the soft alignment of a continuum and of its annotator-reversed copy must cost the same (judged by TraceInvariance)."""
+    from . import invariance
+    recs, metas = [], []
+    while len(recs) < count:
+        shape = rng.choice([(2, 40), (2, 60), (3, 12), (2, 25)])
+        c = invariance.big_continuum(pa, rng, shape, ["Adj", "Noun", "Verb"])
+        d = rng.choice([pa.PositionalSporadicDissimilarity(delta_empty=rng.choice([1.0, 0.5])),
+                        pa.CombinedCategoricalDissimilarity(alpha=rng.choice([1, 3]), beta=1, delta_empty=1.0)])
+        anns = list(c.annotators)
+        m = dict(zip(anns, [f"p{(len(anns) - i):02d}" for i in range(len(anns))]))
+        c2 = invariance.transform(pa, c, ann_map=m)
+        try:
+            a1, a2 = c.get_best_soft_alignment(d).disorder, c2.get_best_soft_alignment(d).disorder
+        except Exception as ex:
+            rep.violation("align.Returns", {"mode": "soft", "exception": repr(ex), "shape": shape})
+            continue
+        recs.append({"kind": "permute_soft", "c": [1, 1], "base": invariance.fxv(a1), "other": invariance.fxv(a2), "hasgamma": 0, "gbase": 0, "gother": 0})
+        metas.append({"shape": shape, "dissim": type(d).__name__, "soft_cost": float(a1), "soft_cost_annotators_reversed": float(a2)})
+        rep.case(key=json.dumps(metas[-1]))
+    res, verdicts = invariance.judge(recs)
+    rep.add_tlc(res)
+    rep.traces += len(recs)
+    for k, names in verdicts.items():
+        rep.violation("align.soft_not_permutation_invariant", {"clauses": sorted(names), "meta": metas[k]})
+
+
 def add_other_backend_cost(recs):
     """C08: attach to each record the cost the other back-end reported for the same instance and mode."""
     by = {}
     for r in recs:
-        by.setdefault((json.dumps(r["sizes"]), json.dumps(r["D"]), r["mode"]), {})[r["wantbackend"]] = r
+        by.setdefault((json.dumps(r["sizes"]), json.dumps(r["D"]), r["de"], json.dumps(r["_meta"].get("continuum")), r["mode"]), {})[r["wantbackend"]] = r
     for group in by.values():
         if len(group) == 2:
             a, b = group.values()
@@ -456,10 +509,10 @@ def add_soft_le(recs):
     best = {}
     for r in recs:
         if r["mode"] == "partition":
-            best[(json.dumps(r["sizes"]), json.dumps(r["D"]), r["wantbackend"])] = r
+            best[(json.dumps(r["sizes"]), json.dumps(r["D"]), r["de"], json.dumps(r["_meta"].get("continuum")), r["wantbackend"])] = r
     for r in recs:
         if r["mode"] == "soft":
-            b = best.get((json.dumps(r["sizes"]), json.dumps(r["D"]), r["wantbackend"]))
+            b = best.get((json.dumps(r["sizes"]), json.dumps(r["D"]), r["de"], json.dumps(r["_meta"].get("continuum")), r["wantbackend"]))
             r["bestcost"] = b["tot"] if b else -1
     return recs
 
